@@ -56,37 +56,43 @@ Fixpoint take_digits (s : bytes) : bytes * bytes :=
   | c :: r => if is_digit c then let '(d, rest) := take_digits r in (c :: d, rest) else ([], s)
   | [] => ([], [])
   end.
-(* number = [ "-" ] ( "0" | digit1-9 *digit ) [ "." 1*digit ] [ ("e"|"E") ["+"|"-"] 1*digit ] *)
+Definition is_nil {A} (l : list A) : bool := match l with [] => true | _ => false end.
+
+(* optional sign *)
+Definition lex_sign (s : bytes) : bytes * bytes :=
+  match s with c :: r => if c =? 45 then ([45], r) else ([], s) | [] => ([], s) end.
+(* optional fraction: "." 1*digit *)
+Definition lex_frac (s : bytes) : option (bytes * bytes) :=
+  match s with
+  | c :: r => if c =? 46 then let '(fd, r') := take_digits r in if is_nil fd then None else Some (46 :: fd, r')
+              else Some ([], s)
+  | [] => Some ([], s)
+  end.
+(* optional exponent: ("e"|"E") ["+"|"-"] 1*digit *)
+Definition lex_exp (s : bytes) : option (bytes * bytes) :=
+  match s with
+  | c :: r =>
+      if (c =? 101) || (c =? 69) then
+        let '(sg, r1) := match r with
+                         | c2 :: r' => if (c2 =? 43) || (c2 =? 45) then ([c2], r') else ([], r)
+                         | [] => ([], r) end in
+        let '(ed, r2) := take_digits r1 in
+        if is_nil ed then None else Some (c :: sg ++ ed, r2)
+      else Some ([], s)
+  | [] => Some ([], s)
+  end.
+(* number = [ "-" ] ( "0" | digit1-9 *digit ) [ frac ] [ exp ] *)
 Definition lex_number (s : bytes) : option (bytes * bytes) :=
-  let '(sign, s1) := match s with 45 :: r => ([45], r) | _ => ([], s) end in
+  let '(sign, s1) := lex_sign s in
   let '(int, s2) := take_digits s1 in
   match int with
   | [] => None
   | d :: more =>
-    if (d =? 48) && negb (match more with [] => true | _ => false end) then None else
-    let frac :=
-      match s2 with
-      | 46 :: r => let '(fd, r') := take_digits r in
-                   match fd with [] => None | _ => Some (46 :: fd, r') end
-      | _ => Some ([], s2)
-      end in
-    match frac with
+    if (d =? 48) && negb (is_nil more) then None else
+    match lex_frac s2 with
     | None => None
     | Some (ftxt, s3) =>
-      let exp :=
-        match s3 with
-        | c :: r =>
-          if (c =? 101) || (c =? 69) then
-            let '(sg, r1) := match r with
-                             | 43 :: r' => ([43], r')
-                             | 45 :: r' => ([45], r')
-                             | _ => ([], r) end in
-            let '(ed, r2) := take_digits r1 in
-            match ed with [] => None | _ => Some (c :: sg ++ ed, r2) end
-          else Some ([], s3)
-        | [] => Some ([], s3)
-        end in
-      match exp with
+      match lex_exp s3 with
       | None => None
       | Some (etxt, s4) => Some (sign ++ int ++ ftxt ++ etxt, s4)
       end
@@ -106,6 +112,12 @@ Definition utf8_bmp (cp : N) : bytes :=
   else if cp <? 2048 then [192 + cp / 64; 128 + cp mod 64]
   else [224 + cp / 4096; 128 + (cp / 64) mod 64; 128 + cp mod 64].
 
+(* the character an escape letter denotes *)
+Definition simple_escape (e : N) : option N :=
+  if e =? 34 then Some 34 else if e =? 92 then Some 92 else if e =? 47 then Some 47
+  else if e =? 98 then Some 8 else if e =? 102 then Some 12 else if e =? 110 then Some 10
+  else if e =? 114 then Some 13 else if e =? 116 then Some 9 else None.
+
 (* after the opening quote: returns decoded content and the rest after the closing quote.
    Raw control characters are rejected; \uD800-\uDFFF (surrogates) are rejected (the formatter never emits them). *)
 Fixpoint lex_string (fuel : nat) (s : bytes) : option (bytes * bytes) :=
@@ -114,36 +126,35 @@ Fixpoint lex_string (fuel : nat) (s : bytes) : option (bytes * bytes) :=
   | Datatypes.S fuel' =>
     match s with
     | [] => None
-    | 34 :: r => Some ([], r)
-    | 92 :: e :: r =>
-        let simple (c : N) := match lex_string fuel' r with Some (t, rest) => Some (c :: t, rest) | None => None end in
-        if e =? 34 then simple 34
-        else if e =? 92 then simple 92
-        else if e =? 47 then simple 47
-        else if e =? 98 then simple 8
-        else if e =? 102 then simple 12
-        else if e =? 110 then simple 10
-        else if e =? 114 then simple 13
-        else if e =? 116 then simple 9
-        else if e =? 117 then
-          match r with
-          | a :: b :: c :: d :: r' =>
-            match hex_val a, hex_val b, hex_val c, hex_val d with
-            | Some a', Some b', Some c', Some d' =>
-              let cp := a' * 4096 + b' * 256 + c' * 16 + d' in
-              if (55296 <=? cp) && (cp <=? 57343) then None else
-              match lex_string fuel' r' with
-              | Some (t, rest) => Some (utf8_bmp cp ++ t, rest)
-              | None => None
-              end
-            | _, _, _, _ => None
-            end
-          | _ => None
-          end
-        else None
     | c :: r =>
-        if c <? 32 then None
-        else match lex_string fuel' r with Some (t, rest) => Some (c :: t, rest) | None => None end
+      if c =? 34 then Some ([], r)
+      else if c =? 92 then
+        match r with
+        | [] => None
+        | e :: r1 =>
+          match simple_escape e with
+          | Some ch => match lex_string fuel' r1 with Some (t, rest) => Some (ch :: t, rest) | None => None end
+          | None =>
+            if e =? 117 then
+              match r1 with
+              | a :: b :: c3 :: d :: r' =>
+                match hex_val a, hex_val b, hex_val c3, hex_val d with
+                | Some a', Some b', Some c', Some d' =>
+                  let cp := a' * 4096 + b' * 256 + c' * 16 + d' in
+                  if (55296 <=? cp) && (cp <=? 57343) then None else
+                  match lex_string fuel' r' with
+                  | Some (t, rest) => Some (utf8_bmp cp ++ t, rest)
+                  | None => None
+                  end
+                | _, _, _, _ => None
+                end
+              | _ => None
+              end
+            else None
+          end
+        end
+      else if c <? 32 then None
+      else match lex_string fuel' r with Some (t, rest) => Some (c :: t, rest) | None => None end
     end
   end.
 
@@ -159,70 +170,78 @@ Fixpoint strip_prefix (p s : bytes) : option bytes :=
   | _ :: _, [] => None
   end.
 
+(* the loops over array elements / object members, parametric in the parser for one value;
+   [n] bounds the number of iterations *)
+Fixpoint elems_loop (pv : bytes -> option (json * bytes)) (n : nat) (s : bytes) (acc : list json) : option (json * bytes) :=
+  match n with
+  | O => None
+  | Datatypes.S n' =>
+    match pv s with
+    | Some (v, rest) =>
+      match skip_ws rest with
+      | c :: rest' => if c =? 44 then elems_loop pv n' rest' (v :: acc)
+                      else if c =? 93 then Some (JArr (rev (v :: acc)), rest')
+                      else None
+      | [] => None
+      end
+    | None => None
+    end
+  end.
+
+Fixpoint members_loop (pv : bytes -> option (json * bytes)) (n : nat) (s : bytes) (acc : list (bytes * json)) : option (json * bytes) :=
+  match n with
+  | O => None
+  | Datatypes.S n' =>
+    match skip_ws s with
+    | q :: ks =>
+      if q =? 34 then
+        match lex_string (Datatypes.S (length ks)) ks with
+        | Some (k, rest) =>
+          match skip_ws rest with
+          | c :: rest1 =>
+            if c =? 58 then
+              match pv rest1 with
+              | Some (v, rest2) =>
+                match skip_ws rest2 with
+                | c2 :: rest3 => if c2 =? 44 then members_loop pv n' rest3 ((k, v) :: acc)
+                                 else if c2 =? 125 then Some (JObj (rev ((k, v) :: acc)), rest3)
+                                 else None
+                | [] => None
+                end
+              | None => None
+              end
+            else None
+          | [] => None
+          end
+        | None => None
+        end
+      else None
+    | [] => None
+    end
+  end.
+
 Fixpoint parse_value (fuel : nat) (s : bytes) : option (json * bytes) :=
   match fuel with
   | O => None
   | Datatypes.S fuel' =>
-    let s := skip_ws s in
-    match s with
+    match skip_ws s with
     | [] => None
-    | 110 :: _ => match strip_prefix [110; 117; 108; 108] s with Some r => Some (JNull, r) | None => None end
-    | 116 :: _ => match strip_prefix [116; 114; 117; 101] s with Some r => Some (JBool true, r) | None => None end
-    | 102 :: _ => match strip_prefix [102; 97; 108; 115; 101] s with Some r => Some (JBool false, r) | None => None end
-    | 34 :: r => match lex_string (Datatypes.S (length r)) r with Some (t, rest) => Some (JStr t, rest) | None => None end
-    | 91 :: r =>
-        let r := skip_ws r in
-        match r with
-        | 93 :: rest => Some (JArr [], rest)
-        | _ =>
-          (fix elems (n : nat) (s : bytes) (acc : list json) : option (json * bytes) :=
-             match n with
-             | O => None
-             | Datatypes.S n' =>
-               match parse_value fuel' s with
-               | Some (v, rest) =>
-                 match skip_ws rest with
-                 | 44 :: rest' => elems n' rest' (v :: acc)
-                 | 93 :: rest' => Some (JArr (rev (v :: acc)), rest')
-                 | _ => None
-                 end
-               | None => None
-               end
-             end) fuel' r []
+    | c :: r =>
+      if c =? 110 then match strip_prefix [110; 117; 108; 108] (c :: r) with Some r' => Some (JNull, r') | None => None end
+      else if c =? 116 then match strip_prefix [116; 114; 117; 101] (c :: r) with Some r' => Some (JBool true, r') | None => None end
+      else if c =? 102 then match strip_prefix [102; 97; 108; 115; 101] (c :: r) with Some r' => Some (JBool false, r') | None => None end
+      else if c =? 34 then match lex_string (Datatypes.S (length r)) r with Some (t, rest) => Some (JStr t, rest) | None => None end
+      else if c =? 91 then
+        match skip_ws r with
+        | c2 :: rest => if c2 =? 93 then Some (JArr [], rest) else elems_loop (parse_value fuel') fuel' (c2 :: rest) []
+        | [] => None
         end
-    | 123 :: r =>
-        let r := skip_ws r in
-        match r with
-        | 125 :: rest => Some (JObj [], rest)
-        | _ =>
-          (fix members (n : nat) (s : bytes) (acc : list (bytes * json)) : option (json * bytes) :=
-             match n with
-             | O => None
-             | Datatypes.S n' =>
-               match skip_ws s with
-               | 34 :: ks =>
-                 match lex_string (Datatypes.S (length ks)) ks with
-                 | Some (k, rest) =>
-                   match skip_ws rest with
-                   | 58 :: rest1 =>
-                     match parse_value fuel' rest1 with
-                     | Some (v, rest2) =>
-                       match skip_ws rest2 with
-                       | 44 :: rest3 => members n' rest3 ((k, v) :: acc)
-                       | 125 :: rest3 => Some (JObj (rev ((k, v) :: acc)), rest3)
-                       | _ => None
-                       end
-                     | None => None
-                     end
-                   | _ => None
-                   end
-                 | None => None
-                 end
-               | _ => None
-               end
-             end) fuel' r []
+      else if c =? 123 then
+        match skip_ws r with
+        | c2 :: rest => if c2 =? 125 then Some (JObj [], rest) else members_loop (parse_value fuel') fuel' (c2 :: rest) []
+        | [] => None
         end
-    | _ => match lex_number s with Some (t, rest) => Some (JNum t, rest) | None => None end
+      else match lex_number (c :: r) with Some (t, rest) => Some (JNum t, rest) | None => None end
     end
   end.
 
